@@ -87,7 +87,7 @@ Proof.
   intros H k v Hin. destruct (H k v Hin) as (n & ty & _ & K & O & _).
   destruct (kconst_shape v K) as (o & -> & _ & _ & Hn & _). split.
   - intros l [= -> _]. congruence.
-  - intros n' d l [= -> <-]. split; auto. cbn in O. rewrite andb_true_r in O. apply Z.ltb_lt in O. lia.
+  - intros n' d l [= -> <-]. split; auto. cbn in O. rewrite andb_true_r in O. apply andb_true_iff in O. destruct O as [O _]. apply Z.ltb_lt in O. lia.
 Qed.
 Lemma model_no_neg m : model_ok m -> no_neg_values m.
 Proof.
@@ -271,9 +271,9 @@ Lemma mk_real_okt f : snd f <> 0%Z ->
   okt (mk_real f) = true /\ tc (mk_real f) = Some TReal /\ gops (mk_real f) = true /\ cops (mk_real f) = true /\
   (forall I, nodiv0 I (mk_real f) /\ div_safe I (mk_real f)).
 Proof.
-  intros H. unfold mk_real. pose proof (fr_norm_pos (fst f) (snd f) H) as P.
-  destruct (fr_norm (fst f) (snd f)) as [n d]. cbn [snd] in P. cbn.
-  apply Z.ltb_lt in P. rewrite P. repeat split; auto.
+  intros H. unfold mk_real. pose proof (fr_norm_pos (fst f) (snd f) H) as P. pose proof (fr_norm_gcd (fst f) (snd f) H) as G.
+  destruct (fr_norm (fst f) (snd f)) as [n d]. cbn [fst snd] in P, G. cbn.
+  apply Z.ltb_lt in P. apply Z.eqb_eq in G. rewrite P, G. repeat split; auto.
 Qed.
 
 Theorem subst_const : forall t, sres_stmt t.
@@ -436,7 +436,7 @@ Proof.
       { intros n0 d0 l0 E0. injection E0 as <- <- <-. split.
         - destruct (tc_inv _ _ _ Tb') as (tys' & Hs' & Hr'). cbn in Hr'. destruct tys'; [|discriminate].
           destruct bargs as [|x xs]; [reflexivity|]. cbn in Hs'. destruct (tc x); [|discriminate]. destruct (tcs xs); discriminate.
-        - apply okt_node in Ob. cbn in Ob. apply Z.ltb_lt in Ob. lia. }
+        - apply okt_node in Ob. cbn in Ob. apply andb_true_iff in Ob. destruct Ob as [Ob _]. apply Z.ltb_lt in Ob. lia. }
       intros I Hwf Hag.
       split; [unfold r; rewrite (mk_div_sem I a' _ _ Hrc Hmk); now apply Hev|].
       specialize (Hsem I Hwf Hag). inversion Hsem as [|? ? ? ? Sa _]; subst. destruct Sa as (_ & Na & Da).
